@@ -11,4 +11,5 @@ Extraction "extract/cast_model.ml"
   TextConv.parse_int TextConv.format_int TextConv.parse_bool TextConv.format_bool
   TextConv.parse_decimal TextConv.format_decimal TextConv.parse_date TextConv.format_date
   TextConv.format_interval TextConv.parse_interval TextConv.qparse_int
-  TextConv.wellformed_int TextConv.wellformed_decimal.
+  TextConv.wellformed_int TextConv.wellformed_decimal TextConv.spec_parse_decimal
+  Cast.planned_nested_cast Cast.nested_cast Cast.flatten_decision.
